@@ -1,17 +1,25 @@
 import TunnoxModel.Model.C19Reg
 import TunnoxModel.Proofs.C19Inv
-/-! C19 — the registry never has two owners of one name, in any interleaving of Register / Unregister / LookupByHost. -/
+/-! C19 — the registry never has two owners of one name, in any interleaving of Register / Unregister /
+UnregisterByMappingID / Rebuild / LookupByHost / IsSubdomainAvailable. -/
 namespace Tunnox.C19
 open Gen
+
+/-- the lock step at which a removal acts -/
+def removalPC : ROp → RPC
+  | .unregister _ => .uLock
+  | .unregId _ => .iLock
+  | .rebuild _ => .bLock
+  | _ => .idle
 
 structure RSim (c : RCfg) (m : RMon) : Prop where
   ok : m.ok = true
   /-- every certain owner is what the registry holds under its name -/
   own : ∀ d x, (d, x) ∈ m.owners → ∃ pm, c.reg d = some pm ∧ pm.ID = x
-  /-- an unregister that is about to delete is known to the monitor … -/
-  fly : ∀ t d rest, (c.th t).todo = .unregister d :: rest → (c.th t).pc = .uLock → (t, d) ∈ m.unregFly
-  /-- … and while it is in flight nobody certainly owns that name -/
-  noOwn : ∀ t d, (t, d) ∈ m.unregFly → ∀ x, (d, x) ∉ m.owners
+  /-- a removal that is about to act is known to the monitor … -/
+  fly : ∀ t o b rest, (c.th t).todo = o :: rest → blockerOf o = some b → (c.th t).pc = removalPC o → (t, b) ∈ m.blockers
+  /-- … and while it is in flight nothing it may take away is certainly owned -/
+  noOwn : ∀ t b, (t, b) ∈ m.blockers → ∀ x, x ∈ m.owners → b.blocks x = false
   /-- the split-variant program counters are never reached -/
   pcs : ∀ t, (c.th t).pc ≠ .rCheck ∧ (c.th t).pc ≠ .rStore
 
@@ -32,55 +40,115 @@ theorem rstep_cons (cf : RConfig) (c : RCfg) (t : Nat) (o : ROp) (rest : List RO
 theorem RSim.mk' {c : RCfg} {m : RMon} (hS : RSim c m) (t : Nat) (reg' : String → Option PM) (nt : RThread) (m' : RMon)
     (hok : m'.ok = true)
     (hown : ∀ d x, (d, x) ∈ m'.owners → ∃ pm, reg' d = some pm ∧ pm.ID = x)
-    (hflyT : ∀ d rest, nt.todo = .unregister d :: rest → nt.pc = .uLock → (t, d) ∈ m'.unregFly)
-    (hflyO : ∀ t' d, t' ≠ t → (t', d) ∈ m.unregFly → (t', d) ∈ m'.unregFly)
-    (hno : ∀ t' d, (t', d) ∈ m'.unregFly → ∀ x, (d, x) ∉ m'.owners)
+    (hflyT : ∀ o b rest, nt.todo = o :: rest → blockerOf o = some b → nt.pc = removalPC o → (t, b) ∈ m'.blockers)
+    (hflyO : ∀ t' b, t' ≠ t → (t', b) ∈ m.blockers → (t', b) ∈ m'.blockers)
+    (hno : ∀ t' b, (t', b) ∈ m'.blockers → ∀ x, x ∈ m'.owners → b.blocks x = false)
     (hpc : nt.pc ≠ .rCheck ∧ nt.pc ≠ .rStore) :
     RSim ⟨reg', upd c.th t nt⟩ m' := by
   refine ⟨hok, hown, ?_, hno, ?_⟩
-  · intro t' d rest h1 h2
+  · intro t' o b rest h1 h2 h3
     by_cases e : t' = t
-    · subst e; simp only [upd_same] at h1 h2; exact hflyT d rest h1 h2
-    · simp only [upd_other _ _ _ _ e] at h1 h2
-      exact hflyO t' d e (hS.fly t' d rest h1 h2)
+    · subst e; simp only [upd_same] at h1 h3; exact hflyT o b rest h1 h2 h3
+    · simp only [upd_other _ _ _ _ e] at h1 h3
+      exact hflyO t' b e (hS.fly t' o b rest h1 h2 h3)
   · intro t'
     by_cases e : t' = t
     · subst e; simp only [upd_same]; exact hpc
     · simp only [upd_other _ _ _ _ e]; exact hS.pcs t'
 
-/-- A slot that changes neither the registry nor the monitor. -/
+/-- A slot that changes neither the registry nor the monitor and leaves the thread at no removal step. -/
 theorem RSim.same {c : RCfg} {m : RMon} (hS : RSim c m) (t : Nat) (nt : RThread)
-    (hnu : ∀ d rest, nt.todo = .unregister d :: rest → nt.pc = .uLock → (t, d) ∈ m.unregFly)
+    (hnu : ∀ o b rest, nt.todo = o :: rest → blockerOf o = some b → nt.pc = removalPC o → (t, b) ∈ m.blockers)
     (hpc : nt.pc ≠ .rCheck ∧ nt.pc ≠ .rStore) : RSim ⟨c.reg, upd c.th t nt⟩ m :=
   hS.mk' t c.reg nt m hS.ok hS.own hnu (fun _ _ _ h => h) hS.noOwn hpc
+
+/-- After a step the acting thread is idle (returned) or in a non-removal position: no `fly` obligation. -/
+theorem no_removal_idle (rest : List ROp) (m : RMon) (t : Nat) :
+    ∀ o b rest', (⟨rest, .idle⟩ : RThread).todo = o :: rest' → blockerOf o = some b → (⟨rest, .idle⟩ : RThread).pc = removalPC o →
+      (t, b) ∈ m.blockers := by
+  intro o b rest' _ hb hp
+  cases o <;> simp [blockerOf, removalPC] at hb hp
+
+/-- Invocation and return of a removal (Unregister / UnregisterByMappingID / Rebuild), given what its lock step does. -/
+theorem RSim.removal {c : RCfg} {m : RMon} (hS : RSim c m) (cf : RConfig) (t : Nat) (o : ROp) (b : Blocker) (rest : List ROp)
+    (hto : (c.th t).todo = o :: rest) (hb : blockerOf o = some b)
+    (hidle : stepROp cf c.reg o .idle = (c.reg, removalPC o, none))
+    (hne : removalPC o ≠ .idle ∧ removalPC o ≠ .rCheck ∧ removalPC o ≠ .rStore)
+    (hlock : ∃ reg', stepROp cf c.reg o (removalPC o) = (reg', .idle, some .ok) ∧
+      ∀ d pm, b.blocks (d, pm.ID) = false → c.reg d = some pm → reg' d = some pm)
+    (hother : ∀ pc, pc ≠ .idle → pc ≠ removalPC o → stepROp cf c.reg o pc = (c.reg, .idle, some (.err "BADPC")))
+    (hret : ∀ (m0 : RMon) r, rMonRet m0 t o r = { m0 with blockers := m0.blockers.filter (·.1 != t) }) :
+    RSim (stepRThread cf c t).1 (rMonSlot m (stepRThread cf c t).2) := by
+  rw [rstep_cons cf c t o rest hto]
+  simp only [rMonSlot]
+  by_cases hpc : (c.th t).pc = .idle
+  · rw [hpc, hidle]
+    simp only [RPC.isIdle, if_true, Option.map_none, rMonInv, hb]
+    refine hS.mk' t _ _ _ hS.ok ?_ ?_ (fun _ _ _ h => List.mem_cons_of_mem _ h) ?_ ⟨hne.2.1, hne.2.2⟩
+    · intro d x hx; exact hS.own d x (List.mem_filter.mp hx).1
+    · intro o' b' rest' h1 h2 _
+      injection h1 with h1 _; subst h1; rw [hb] at h2; injection h2 with h2; subst h2
+      exact List.mem_cons_self
+    · intro t' b' hm x hx
+      simp only [List.mem_filter, Bool.not_eq_true'] at hx
+      simp only [List.mem_cons] at hm
+      rcases hm with e | hm
+      · injection e with _ e2; subst e2; exact hx.2
+      · exact hS.noOwn t' b' hm x hx.1
+  · have hisidle : (c.th t).pc.isIdle = false := by
+      cases h : (c.th t).pc <;> first | rfl | exact absurd h hpc
+    by_cases hlk : (c.th t).pc = removalPC o
+    · obtain ⟨reg', hstep, hkeep⟩ := hlock
+      rw [hlk] at hisidle ⊢
+      rw [hstep]
+      simp only [hisidle, Bool.false_eq_true, if_false, Option.map_some, hret]
+      have hin := hS.fly t o b rest hto hb hlk
+      refine hS.mk' t _ _ _ hS.ok ?_ (no_removal_idle rest _ t)
+        (fun t' b' hne' h => List.mem_filter.mpr ⟨h, by simpa using hne'⟩)
+        (fun t' b' hm => hS.noOwn t' b' (List.mem_filter.mp hm).1) (by simp)
+      intro d x hx
+      obtain ⟨pm, hpm, hid⟩ := hS.own d x hx
+      have := hS.noOwn t b hin (d, x) hx
+      exact ⟨pm, hkeep d pm (by rw [hid]; exact this) hpm, hid⟩
+    · rw [hother _ hpc hlk]
+      simp only [hisidle, Bool.false_eq_true, if_false, Option.map_some, hret]
+      refine hS.mk' t _ _ _ hS.ok hS.own (no_removal_idle rest _ t)
+        (fun t' b' hne' h => List.mem_filter.mpr ⟨h, by simpa using hne'⟩)
+        (fun t' b' hm => hS.noOwn t' b' (List.mem_filter.mp hm).1) (by simp)
 
 theorem RSim.step (cf : RConfig) (hns : cf.split = false) (c : RCfg) (m : RMon) (hS : RSim c m) (t : Nat) :
     RSim (stepRThread cf c t).1 (rMonSlot m (stepRThread cf c t).2) := by
   cases hto : (c.th t).todo with
   | nil => rw [rstep_nil cf c t hto]; exact hS
   | cons o rest =>
-    rw [rstep_cons cf c t o rest hto]
     have hpcs := hS.pcs t
+    have hidleT : ∀ (m0 : RMon), ∀ o' b' rest', (⟨rest, .idle⟩ : RThread).todo = o' :: rest' → blockerOf o' = some b' →
+        (⟨rest, .idle⟩ : RThread).pc = removalPC o' → (t, b') ∈ m0.blockers := fun m0 => no_removal_idle rest m0 t
     cases o with
     | register pm =>
+      rw [rstep_cons cf c t _ rest hto]
       simp only [stepROp, rMonSlot]
+      have hnr : ∀ (pc : RPC) (m0 : RMon), ∀ o' b' rest', (⟨.register pm :: rest, pc⟩ : RThread).todo = o' :: rest' →
+          blockerOf o' = some b' → (⟨.register pm :: rest, pc⟩ : RThread).pc = removalPC o' → (t, b') ∈ m0.blockers := by
+        intro pc m0 o' b' rest' h1 h2 _
+        injection h1 with h1 _; subst h1; simp [blockerOf] at h2
       cases hpc : (c.th t).pc
       · -- idle
-        simp only [stepRegister, hns, RPC.isIdle, if_true, Bool.false_eq_true, if_false, rMonInv]
+        simp only [stepRegister, hns, RPC.isIdle, if_true, Bool.false_eq_true, if_false, rMonInv, blockerOf]
         split
-        · exact hS.same t _ (by intro d r _ hp; simp at hp) (by simp)
-        · exact hS.same t _ (by intro d r _ hp; simp at hp) (by simp)
+        · exact hS.same t _ (hidleT m) (by simp)
+        · exact hS.same t _ (hnr _ m) (by simp)
       · exact absurd hpc hpcs.1
       · -- rBase
         simp only [stepRegister, hns, RPC.isIdle, Bool.false_eq_true, if_false]
         split
-        · exact hS.same t _ (by intro d r _ hp; simp at hp) (by simp)
-        · exact hS.same t _ (by intro d r _ hp; simp at hp) (by simp)
+        · exact hS.same t _ (hnr _ m) (by simp)
+        · exact hS.same t _ (hidleT m) (by simp)
       · -- rLock: check and store in one section
         simp only [stepRegister, RPC.isIdle, Bool.false_eq_true, if_false]
         by_cases hob : ownedByOtherId c.reg pm = true
         · simp only [hob, if_true, Option.map_some, rMonRet]
-          exact hS.same t _ (by intro d r _ hp; simp at hp) (by simp)
+          exact hS.same t _ (hidleT m) (by simp)
         · simp only [hob, Bool.false_eq_true, if_false, Option.map_some, rMonRet]
           have hok : (m.ok && !(m.owners.any (fun x => x.1 == pm.fullDomain && x.2 != pm.ID))) = true := by
             rw [hS.ok, Bool.true_and, Bool.not_eq_true', List.any_eq_false]
@@ -92,82 +160,78 @@ theorem RSim.step (cf : RConfig) (hns : cf.split = false) (c : RCfg) (m : RMon) 
             rw [← hx'.1, hex]
             simp only [bne_iff_ne, ne_eq, hid]
             exact hx'.2
-          by_cases hfl : m.unregFly.any (fun x => x.2 == pm.fullDomain) = true
+          by_cases hfl : m.blockers.any (fun b => b.2.blocks (pm.fullDomain, pm.ID)) = true
           · simp only [hfl, if_true]
-            refine hS.mk' t _ _ _ hok ?_ (by intro d r _ hp; simp at hp) (fun _ _ _ h => h) hS.noOwn (by simp)
+            refine hS.mk' t _ _ _ hok ?_ (hidleT _) (fun _ _ _ h => h) hS.noOwn (by simp)
             intro d x hx
-            have hne : d ≠ pm.fullDomain := by
-              intro e; subst e
-              obtain ⟨y, hy, hy'⟩ := List.any_eq_true.mp hfl
-              simp only [beq_iff_eq] at hy'
-              exact hS.noOwn y.1 y.2 hy x (by rw [hy']; exact hx)
-            simp only [upd_other _ _ _ _ hne]; exact hS.own d x hx
+            obtain ⟨ex, hex, hid⟩ := hS.own d x hx
+            by_cases hne : d = pm.fullDomain
+            · subst hne
+              -- the stored mapping has the same ID as the certain owner (else the check would have refused)
+              have : ex.ID = pm.ID := by
+                by_cases hc : ex.ID = pm.ID
+                · exact hc
+                · exfalso
+                  apply hob
+                  unfold ownedByOtherId
+                  rw [hex]; simp [hc]
+              exact ⟨pm, by simp, by rw [← this, hid]⟩
+            · simp only [upd_other _ _ _ _ hne]; exact ⟨ex, hex, hid⟩
           · simp only [hfl, Bool.false_eq_true, if_false]
-            refine hS.mk' t _ _ _ hok ?_ (by intro d r _ hp; simp at hp) (fun _ _ _ h => h) ?_ (by simp)
+            refine hS.mk' t _ _ _ hok ?_ (hidleT _) (fun _ _ _ h => h) ?_ (by simp)
             · intro d x hx
               simp only [List.mem_cons, List.mem_filter, bne_iff_ne] at hx
               rcases hx with e | ⟨hx, hne⟩
               · injection e with e1 e2; subst e1; subst e2; exact ⟨pm, by simp, rfl⟩
               · simp only [ne_eq] at hne
                 simp only [upd_other _ _ _ _ hne]; exact hS.own d x hx
-            · intro t' d hm x hx
+            · intro t' b' hm x hx
               simp only [List.mem_cons, List.mem_filter, bne_iff_ne] at hx
               rcases hx with e | ⟨hx, _⟩
-              · injection e with e1 _; subst e1
+              · subst e
+                rw [Bool.eq_false_iff]; intro hbk
                 apply hfl
-                exact List.any_eq_true.mpr ⟨(t', pm.fullDomain), hm, by simp⟩
-              · exact hS.noOwn t' d hm x hx
+                exact List.any_eq_true.mpr ⟨(t', b'), hm, hbk⟩
+              · exact hS.noOwn t' b' hm x hx
       · exact absurd hpc hpcs.2
-      · simp only [stepRegister, RPC.isIdle, Bool.false_eq_true, if_false, Option.map_some, rMonRet]
-        exact hS.same t _ (by intro d r _ hp; simp at hp) (by simp)
-      · simp only [stepRegister, RPC.isIdle, Bool.false_eq_true, if_false, Option.map_some, rMonRet]
-        exact hS.same t _ (by intro d r _ hp; simp at hp) (by simp)
+      all_goals
+        simp only [stepRegister, RPC.isIdle, Bool.false_eq_true, if_false, Option.map_some, rMonRet]
+        exact hS.same t _ (hidleT m) (by simp)
     | unregister d =>
-      simp only [stepROp, rMonSlot]
-      cases hpc : (c.th t).pc
-      · -- idle: invocation
-        simp only [RPC.isIdle, if_true, Option.map_none, rMonInv]
-        refine hS.mk' t _ _ _ hS.ok ?_ ?_ (fun _ _ _ h => List.mem_cons_of_mem _ h) ?_ (by simp)
-        · intro d' x hx; exact hS.own d' x (List.mem_filter.mp hx).1
-        · intro d' r h _; injection h with h _; injection h with h; subst h; exact List.mem_cons_self
-        · intro t' d' hm x hx
-          simp only [List.mem_filter, bne_iff_ne, ne_eq] at hx
-          simp only [List.mem_cons] at hm
-          rcases hm with e | hm
-          · injection e with _ e2; exact hx.2 e2
-          · exact hS.noOwn t' d' hm x hx.1
-      all_goals
-        first
-        | (simp only [RPC.isIdle, Bool.false_eq_true, if_false, Option.map_some, rMonRet]
-           refine hS.mk' t _ _ _ hS.ok hS.own (by intro d' r _ hp; simp at hp)
-             (fun t' d' hne h => List.mem_filter.mpr ⟨h, by simpa using hne⟩)
-             (fun t' d' hm => hS.noOwn t' d' (List.mem_filter.mp hm).1) (by simp))
-        | skip
-      · -- uLock: the delete
-        simp only [RPC.isIdle, Bool.false_eq_true, if_false, Option.map_some, rMonRet]
-        have hin := hS.fly t d rest hto hpc
-        refine hS.mk' t _ _ _ hS.ok ?_ (by intro d' r _ hp; simp at hp)
-          (fun t' d' hne h => List.mem_filter.mpr ⟨h, by simpa using hne⟩)
-          (fun t' d' hm => hS.noOwn t' d' (List.mem_filter.mp hm).1) (by simp)
-        intro d' x hx
-        have hne : d' ≠ d := by intro e; subst e; exact hS.noOwn t d' hin x hx
-        simp only [upd_other _ _ _ _ hne]; exact hS.own d' x hx
+      refine hS.removal cf t _ (.dom d) rest hto rfl rfl (by simp [removalPC]) ?_ ?_ (fun _ _ => rfl)
+      · refine ⟨upd c.reg d none, rfl, ?_⟩
+        intro d' pm hb' hr
+        have : d' ≠ d := by intro e; subst e; simp [Blocker.blocks] at hb'
+        simp only [upd_other _ _ _ _ this]; exact hr
+      · intro pc h1 h2; cases pc <;> first | rfl | exact absurd rfl h1 | exact absurd rfl h2
+    | unregId x =>
+      refine hS.removal cf t _ (.id x) rest hto rfl rfl (by simp [removalPC]) ?_ ?_ (fun _ _ => rfl)
+      · refine ⟨dropById c.reg x, rfl, ?_⟩
+        intro d' pm hb' hr
+        simp only [Blocker.blocks, beq_eq_false_iff_ne, ne_eq] at hb'
+        simp [dropById, hr, hb']
+      · intro pc h1 h2; cases pc <;> first | rfl | exact absurd rfl h1 | exact absurd rfl h2
+    | rebuild l =>
+      refine hS.removal cf t _ .all rest hto rfl rfl (by simp [removalPC]) ?_ ?_ (fun _ _ => rfl)
+      · refine ⟨rebuildReg l, rfl, ?_⟩
+        intro d' pm hb' _; simp [Blocker.blocks] at hb'
+      · intro pc h1 h2; cases pc <;> first | rfl | exact absurd rfl h1 | exact absurd rfl h2
     | lookup host =>
+      rw [rstep_cons cf c t _ rest hto]
       simp only [stepROp, rMonSlot]
+      have hnr : ∀ (pc : RPC) (m0 : RMon), ∀ o' b' rest', (⟨.lookup host :: rest, pc⟩ : RThread).todo = o' :: rest' →
+          blockerOf o' = some b' → (⟨.lookup host :: rest, pc⟩ : RThread).pc = removalPC o' → (t, b') ∈ m0.blockers := by
+        intro pc m0 o' b' rest' h1 h2 _
+        injection h1 with h1 _; subst h1; simp [blockerOf] at h2
       cases hpc : (c.th t).pc
-      · simp only [RPC.isIdle, if_true, Option.map_none, rMonInv]
-        exact hS.same t _ (by intro d r _ hp; simp at hp) (by simp)
-      all_goals
-        first
-        | (simp only [RPC.isIdle, Bool.false_eq_true, if_false, Option.map_some, rMonRet]
-           exact hS.same t _ (by intro d r _ hp; simp at hp) (by simp))
-        | skip
-      · -- lLock: the read
+      · simp only [RPC.isIdle, if_true, Option.map_none, rMonInv, blockerOf]
+        exact hS.same t _ (hnr _ m) (by simp)
+      case lLock =>
         simp only [RPC.isIdle, Bool.false_eq_true, if_false]
         cases hr : c.reg (extractDomain host) with
         | none =>
           simp only [Option.map_some, rMonRet]
-          refine hS.mk' t _ _ _ ?_ hS.own (by intro d r _ hp; simp at hp) (fun _ _ _ h => h) hS.noOwn (by simp)
+          refine hS.mk' t _ _ _ ?_ hS.own (hidleT _) (fun _ _ _ h => h) hS.noOwn (by simp)
           simp only
           rw [hS.ok, Bool.true_and, Bool.not_eq_true', List.any_eq_false]
           intro x hx hx'
@@ -176,7 +240,7 @@ theorem RSim.step (cf : RConfig) (hns : cf.split = false) (c : RCfg) (m : RMon) 
           rw [hx', hr] at hex; cases hex
         | some mm =>
           simp only [Option.map_some, rMonRet]
-          refine hS.mk' t _ _ _ ?_ hS.own (by intro d r _ hp; simp at hp) (fun _ _ _ h => h) hS.noOwn (by simp)
+          refine hS.mk' t _ _ _ ?_ hS.own (hidleT _) (fun _ _ _ h => h) hS.noOwn (by simp)
           simp only
           rw [hS.ok, Bool.true_and, List.all_eq_true]
           intro x hx
@@ -185,12 +249,44 @@ theorem RSim.step (cf : RConfig) (hns : cf.split = false) (c : RCfg) (m : RMon) 
             rw [e, hr] at hex; injection hex with hex; subst hex
             simp [e, hid]
           · simp [e]
+      all_goals
+        simp only [RPC.isIdle, Bool.false_eq_true, if_false, Option.map_some, rMonRet]
+        exact hS.same t _ (hidleT m) (by simp)
+    | avail sub base =>
+      rw [rstep_cons cf c t _ rest hto]
+      simp only [stepROp, rMonSlot]
+      have hnr : ∀ (pc : RPC) (m0 : RMon), ∀ o' b' rest', (⟨.avail sub base :: rest, pc⟩ : RThread).todo = o' :: rest' →
+          blockerOf o' = some b' → (⟨.avail sub base :: rest, pc⟩ : RThread).pc = removalPC o' → (t, b') ∈ m0.blockers := by
+        intro pc m0 o' b' rest' h1 h2 _
+        injection h1 with h1 _; subst h1; simp [blockerOf] at h2
+      cases hpc : (c.th t).pc
+      · simp only [RPC.isIdle, if_true, Option.map_none, rMonInv, blockerOf]
+        exact hS.same t _ (hnr _ m) (by simp)
+      case aLock =>
+        simp only [RPC.isIdle, Bool.false_eq_true, if_false, Option.map_some]
+        cases hr : c.reg (sub ++ "." ++ base) with
+        | some mm =>
+          simp only [Option.isNone_some, rMonRet]
+          exact hS.same t _ (hidleT m) (by simp)
+        | none =>
+          simp only [Option.isNone_none, rMonRet]
+          refine hS.mk' t _ _ _ ?_ hS.own (hidleT _) (fun _ _ _ h => h) hS.noOwn (by simp)
+          simp only
+          rw [hS.ok, Bool.true_and, Bool.not_eq_true', List.any_eq_false]
+          intro x hx hx'
+          simp only [beq_iff_eq] at hx'
+          obtain ⟨ex, hex, _⟩ := hS.own x.1 x.2 hx
+          rw [hx', hr] at hex; cases hex
+      all_goals
+        simp only [RPC.isIdle, Bool.false_eq_true, if_false, Option.map_some, rMonRet]
+        exact hS.same t _ (hidleT m) (by simp)
 
 theorem RSim.init (i : RInput) : RSim (initRCfg i) {} := by
   refine ⟨rfl, ?_, ?_, ?_, ?_⟩
   · intro d x h; simp at h
-  · intro t d rest _ h; simp [initRCfg] at h
-  · intro t d h; simp at h
+  · intro t o b rest _ hb h
+    cases o <;> simp [blockerOf, removalPC, initRCfg] at hb h
+  · intro t b h; simp at h
   · intro t; simp [initRCfg]
 
 theorem runRSched_sim (cf : RConfig) (hns : cf.split = false) :
